@@ -133,18 +133,24 @@ def install(ctx):
 
 
 # ------------------------------------------------------------------------------- cases
-def write_file(path, j, n, ident, out_edges, paths, rng):
+def write_file(path, j, n, ident, out_edges, paths, rng, link=False):
+    """link=True: a pure link file - metadata and basin definitions, no features of its own
+    and no event count (what the writer produces when only store_metadata / store_basin are
+    called)."""
     import dclab
     from vmon.gen import dataset as gd
     meta = gd.complete_meta(rng, {}, n)
+    if link:
+        meta["experiment"].pop("event count", None)
     meta["experiment"].pop("run identifier", None)
     meta["setup"].pop("identifier", None)    # no derived identifier either
     if ident is not None:
         meta["experiment"]["run identifier"] = ident
     with dclab.RTDCWriter(path, mode="reset") as hw:
         hw.store_metadata(meta)
-        hw.store_feature(f"userdef{j}", 1000.0 * j + np.arange(n))
-        hw.store_feature("deform", j + np.arange(n) / 100)
+        if not link:
+            hw.store_feature(f"userdef{j}", 1000.0 * j + np.arange(n))
+            hw.store_feature("deform", j + np.arange(n) / 100)
         for e in out_edges:
             loc = paths[e["dst"]]
             if e["dangling"]:
@@ -201,13 +207,19 @@ def run_graph(ctx, idx, rng, tmp, k, pairs, edges, ids):
     import dclab
     n = int(rng.integers(2, 8))
     paths = [tmp / f"f{j}.rtdc" for j in range(k)]
+    # every fifth generated graph contains pure link files (never the root)
+    links = set()
+    if idx % 5 == 3 and k >= 2:
+        links = {j for j in range(1, k) if rng.random() < 0.5} or {k - 1}
+        ctx.count("graphs_with_link_files")
     for j in range(k):
-        write_file(paths[j], j, n, ids[j], [e for e in edges if e["src"] == j], paths, rng)
+        write_file(paths[j], j, n, ids[j], [e for e in edges if e["src"] == j], paths, rng,
+                   link=j in links)
     offered, loads = resolve_model(k, edges, ids)
     case = {"files": k, "edges": [(e["src"], e["dst"], "mapped" if e["mapped"] else "same",
                                    "dangling" if e["dangling"] else
                                    ("rel" if e["relative"] else "abs")) for e in edges],
-            "ids": ids}
+            "ids": ids, "link_files": sorted(links)}
     Rec.opens.clear()
     with warnings.catch_warnings():
         warnings.simplefilter("ignore")
@@ -216,7 +228,7 @@ def run_graph(ctx, idx, rng, tmp, k, pairs, edges, ids):
             feats_basin = list(ds.features_basin)
             for j in range(k):
                 f = f"userdef{j}"
-                exp_off = (j in offered) or j == 0
+                exp_off = ((j in offered) or j == 0) and j not in links
                 got_off = f in ds
                 ctx.check("c14.offered_iff_model", got_off == exp_off,
                           lambda: dict(case, feature=f, offered=got_off, model=exp_off,
